@@ -267,6 +267,10 @@ def oracleStep (o : OState S) (σ : State S) (c : Cmd S) (out : Out S) (σ' : St
       let o' := hs.foldl (fun (o : OState S) h => o.set h.node none) o
       (o', exp.map (fun ps => .params ps))
     | none => (o, none)
+  -- emitted by the generators only where the property demands equality
+  | .same _ _ => (o, some (.bool true))
+  | .samegrad _ _ => (o, some (.bool true))
+  | .lin _ _ _ _ _ => (o, some (.bool true))
   | .probe _ => match out with
     | .probe _ _ tr keep kids rc => (o, some (.probe 0 false tr keep kids rc))
     | _ => (o, none)
